@@ -15,6 +15,8 @@
  *   deldelay <which>           uref_clock_delete_..._delay
  *   setrap <dom> <v>           uref_clock_set_rap_<dom>
  *   dup copy|orig              uref_dup; go on with the copy / with the original
+ *   flag <which>               set / delete / copy of a void attribute kept in uref->flags (set_disc del_disc
+ *                              del_end set_random del_random set_start del_start del_ref copy_end copy_ref)
  *   get <dom> <ty>             uref_clock_get_{cr,dts,pts,rap}_<dom>   ty 4=rap
  *   getdelay <which>           uref_clock_get_..._delay
  * dom = sys|prog|orig, which = dtsPts|crDts|rapCr.
@@ -40,6 +42,8 @@
 #include "upipe/uref.h"
 #include "upipe/uref_std.h"
 #include "upipe/uref_clock.h"
+#include "upipe/uref_flow.h"
+#include "upipe/uref_block.h"
 
 typedef void (*set_f)(struct uref *, uint64_t);
 typedef int (*get_f)(struct uref *, uint64_t *);
@@ -219,6 +223,25 @@ int main(void)
             if (n != 3 || d < 0) fail("bad command", line);
             ret = ubase_check(setrap_tab[d](uref, strtoull(a2, NULL, 16))) ?
                   "ok" : "err";
+        } else if (!strcmp(cmd, "flag")) {
+            /* the void attributes that live in uref->flags, next to the date types */
+            if (n != 2) fail("bad command", line);
+            if (!strcmp(a1, "set_disc")) uref_flow_set_discontinuity(uref);
+            else if (!strcmp(a1, "del_disc")) uref_flow_delete_discontinuity(uref);
+            else if (!strcmp(a1, "del_end")) uref_flow_delete_end(uref);
+            else if (!strcmp(a1, "set_random")) uref_flow_set_random(uref);
+            else if (!strcmp(a1, "del_random")) uref_flow_delete_random(uref);
+            else if (!strcmp(a1, "set_start")) uref_block_set_start(uref);
+            else if (!strcmp(a1, "del_start")) uref_block_delete_start(uref);
+            else if (!strcmp(a1, "del_ref")) uref_clock_delete_ref(uref);
+            else if (!strcmp(a1, "copy_end") || !strcmp(a1, "copy_ref")) {
+                struct uref *other = uref_alloc(uref->mgr);
+                if (other == NULL) fail("uref_alloc", line);
+                if (!strcmp(a1, "copy_end")) uref_block_copy_end(uref, other);
+                else uref_clock_copy_ref(uref, other);
+                uref_free(other);
+            } else
+                fail("bad command", line);
         } else if (!strcmp(cmd, "dup")) {
             struct uref *copy = uref_dup(uref);
             if (copy == NULL) fail("uref_dup", line);
